@@ -39,10 +39,22 @@ theorem ip_filter_closed : ipFilterUsesHeaders = false ∧ ipFilterFailOpen = fa
 WebSocket upgrade and a streamed response survive every plugin chain. -/
 theorem wrappers_capable : ∀ w ∈ writerWrappers, w.hijack = true ∧ (w.flush = true ∨ w.unwrap = true) := by decide
 
-/-- the wrappers are the four the writer model covers -/
+/-- the wrappers are the five the writer models cover -/
 theorem wrappers_known : writerWrappers.map (·.name) =
-    ["loadbalancer.responseWriter", "plugins.gzipResponseWriter", "plugins.limitedResponseWriter", "plugins.statusRecorder"] := by
+    ["loadbalancer.responseWriter", "logging.idHeaderWriter", "plugins.gzipResponseWriter",
+     "plugins.limitedResponseWriter", "plugins.statusRecorder"] := by
   decide
+
+/-- **C01: the pass-through configuration the proxy model assumes.** ReverseProxy flushes after
+every write (FlushInterval -1); the backend transport neither adds Accept-Encoding nor decodes
+responses (DisableCompression); the balancer's own writer defines only WriteHeader / Flush /
+Hijack / Unwrap — body and header map are the embedded writer's — and WriteHeader passes the
+backend's status on unchanged; the handler is composed balancer → plugin chain → request
+context middleware, inside out. -/
+theorem proxy_passthrough :
+    proxyFlushImmediate = true ∧ transportNoCompress = true ∧
+    lbWriterMethods = ["Flush", "Hijack", "Unwrap", "WriteHeader"] ∧ lbWriterForwards = true ∧
+    handlerOrder = ["lb", "BuildChain", "RequestContextMiddleware"] := by decide
 
 theorem log_enums_eq : (∀ s ∈ logLevels, s ∈ Cfg.logLevels) ∧ (∀ s ∈ Cfg.logLevels, s ∈ logLevels) ∧
     (∀ s ∈ logFormats, s ∈ Cfg.logFormats) ∧ (∀ s ∈ Cfg.logFormats, s ∈ logFormats) := by decide
